@@ -2,7 +2,7 @@
 (* Bounded exhaustive instances for C13 (PAGE = 4).  One state variable s, three modes (INIT/NEXT pairs):
    F  platform filters      all filters of <= MaxF entries over FIds x {more} x {neg}
    P  payload layouts       all sequences of <= MaxRuns pairwise disjoint runs (1..2 lines of 1..3 bytes) over 3 pages,
-                            any file order, first line in the first page: gaps at every position, page crossings,
+                            any file order, first line in the first page: gaps at every position, page crossings, lines straddling a page end,
                             non-zero starts, out-of-order blocks
    S  section layouts       files of 1..S_MaxSec sections built from section descriptors (what the author of the
                             BF2 file means); the machine of Bf2Import run on the printed items must produce what
@@ -32,7 +32,9 @@ FilterHeader == /\ FilterOk(s) /\ ~FilterOk(Append(s, 0)) /\ ~FilterOk([s EXCEPT
 
 \* ================================================================== mode P
 T0 == 100
-Cand == {c \in (0..MaxPage) \X (0..(PAGE - 1)) \X (1..3) \X (1..2) : c[2] + c[3] * c[4] <= PAGE}    \* page, offs, len, n
+\* page, offs, len, n: every line STARTS inside its page (16-bit offset) but may end in the next one (flat addressing)
+Cand == {c \in (0..MaxPage) \X (0..(PAGE - 1)) \X (1..3) \X (1..2) :
+             c[2] + c[3] * (c[4] - 1) < PAGE /\ c[1] * PAGE + c[2] + c[3] * c[4] <= (MaxPage + 1) * PAGE}
 CellsOf(pg, offs, len, n) == {pg * PAGE + offs + k : k \in 0..(len * n - 1)}
 RunCells(r) == CellsOf(r[3] - T0, r[4], r[5], r[2])
 Used(rs) == UNION {RunCells(rs[j]) : j \in 1..Len(rs)}
@@ -91,6 +93,7 @@ ShapeGroups(sh, bt, b) ==
     IF sh = "one" THEN << <<Ln(b + 1, bt, 0, 2)>> >>
     ELSE IF sh = "two" THEN (IF HasNext(bt) THEN << <<Ln(b + 1, bt, 0, 3), Ln(b + 2, bt, 3, 1)>>, <<Ln(b + 3, bt + 1, 0, 2)>> >>
                              ELSE << <<Ln(b + 1, bt, 0, 3), Ln(b + 2, bt, 3, 1)>> >>)
+    ELSE IF sh = "straddle" THEN << <<Ln(b + 1, bt, 0, 3), Ln(b + 2, bt, 3, 2)>>, <<Ln(b + 3, bt + 1, 1, 2)>> >>   \* 2nd line ends in the next page
     ELSE IF sh = "gap" THEN << <<Ln(b + 1, bt, 0, 1), Ln(b + 2, bt, 2, 1)>> >>
     ELSE IF sh = "gapmid" THEN << <<Ln(b + 1, bt, 0, 1), Ln(b + 2, bt, 2, 1), Ln(b + 3, bt, 3, 1)>> >>
     ELSE IF sh = "nz" THEN << <<Ln(b + 1, bt, 1, 2)>> >>
@@ -157,7 +160,7 @@ NoPre(x) == x.sel = "none" /\ x.sif = "none" /\ x.ver = "none" /\ x.crc # "pre"
 Admissible(f, x) ==
     LET k == Len(f.secs) + 1 IN
     /\ (x.bt \in IgnoredTypes => ~x.reboot /\ x.crc = "none" /\ x.shape \in {"one", "two"})
-    /\ (x.shape \in {"pagegap", "nonbase"} => HasNext(x.bt))
+    /\ (x.shape \in {"pagegap", "nonbase", "straddle"} => HasNext(x.bt))
     /\ (x.shape = "nonbase" => k = 1 \/ f.secs[k - 1].reboot)
     /\ (k = 1 \/ f.secs[k - 1].reboot \/ Ign(f, k - 1) \/ NoPre(x) \/ (PendVer(f, k - 1) # "none" /\ x.ver # "none"))
 Secs == [bt : S_Types, sel : S_Sels, ver : S_Vers, sif : S_Sifs, shape : S_Shapes, crc : S_Crcs, reboot : S_Reboots]
